@@ -11,6 +11,7 @@ import EzdxfVerif.Lemmas.DocLink
 import EzdxfVerif.Lemmas.DocHandles
 import EzdxfVerif.Lemmas.DocExplode
 import EzdxfVerif.Lemmas.DocNames
+import EzdxfVerif.Lemmas.DocFinal
 
 namespace EzdxfVerif.Props.C05
 open EzdxfVerif.Doc
@@ -231,6 +232,29 @@ theorem reload_twice_tables_groups (s : State) (seed seed2 : Nat) (hd : DbInv s)
     let s1 := (step s (.reload seed)).1
     let s2 := (step s1 (.reload seed2)).1
     s2.tabs = s1.tabs ∧ s2.groups = s1.groups := Doc.reload_twice_tabs_groups s seed seed2 hd hseed hseed2
+
+/-! ### final round: lookup, iteration, and the layouts as an exact relation -/
+
+/-- iterating a layout or block never yields a destroyed entity (any state) -/
+theorem iteration_filters_dead (s : State) (k x : Nat) (hx : x ∈ content s k) : isAlive s x = true :=
+  Doc.iteration_filters_dead s k x hx
+
+/-- `entitydb.get(handle)` in every reachable state: a live entity is found under its handle and is stored in the
+    database; a handle that was never issued finds nothing -/
+theorem lookup_sound (s : State) (ops : List Op) (hd : DbInv s) (h : Nat) :
+    (isAlive (run s ops) h = true → ∃ e, findEnt (run s ops) h = some e ∧ e.h = h ∧ e.indb = true) ∧
+    (h ∉ hs (run s ops) → findEnt (run s ops) h = none) :=
+  Doc.lookup_sound _ (Doc.db_inv_reachable s ops hd) h
+
+/-- what the layouts show is EXACTLY the ownership relation, in every reachable state: no entity twice in a layout, no
+    entity in two layouts, and `x` is shown by layout `k` iff `x` is alive, reports `k` as its owner and `k` exists -/
+theorem content_exact (s : State) (ops : List Op) (h : DocInv s) (ho : OwnerInv s) (hl : LinkInv s) (hok : HistOk s ops) :
+    (∀ k, (content (run s ops) k).Nodup) ∧
+    (∀ k k' x, x ∈ content (run s ops) k → x ∈ content (run s ops) k' → k = k') ∧
+    (∀ k x, x ∈ content (run s ops) k ↔
+      (isAlive (run s ops) x = true ∧ ownerOf (run s ops) x = some k ∧ (spaceOf (run s ops) k).isSome = true)) :=
+  Doc.content_exact _ (Doc.inv_reachable s ops h hok) (Doc.owner_inv_reachable s ops h ho hok)
+    (Doc.link_inv_reachable s ops h hl hok)
 
 /-! ### non-vacuity: the state of a fresh `ezdxf.new()` document, and a history on it -/
 
